@@ -149,6 +149,23 @@ def run(tier, seed, t0):
     allc = cases(tier)
     core.check_deterministic(judge, allc[len(allc) // 2])
     st = core.pmap(_work, core.chunks(allc, 800))
+    # single-process history sweep, mask-major: the same mask triple is decoded under all 49
+    # identities (constellations interleaved) and both label options back to back, so that
+    # decoded maps cached under a key that omits the constellation / level / option collide
+    ids = [str(n) for n in pinned.MSM_NUMBERS]
+    triples = [(1 << 63, 1 << 30, 1), (7 << 61, 1 << 30, 0b101), ((1 << 63) | 1, (1 << 30) | (1 << 9), 0b0110),
+               (1 << 61, 0b11 << 22, 0b01), (0x8040201008040201, 0x80008001, 0xA5A5A5A5)]
+    order = [(i, t) for t in triples for i in ids] + [(i, t) for t in triples for i in reversed(ids)]
+    nseq = 0
+    for lm_order in ((1, 2), (2, 1)):
+        for ident, (sat, sig, cell) in order:
+            for lm in lm_order:
+                case = {"id": ident, "sat": sat, "sig": sig, "cell": cell, "lm": lm}
+                out = judge(case)
+                if out.violations:
+                    st.add(case, out)
+                nseq += 1
+    st.extra["single_process_history_sweep_cases"] = nseq
     st.extra["msm_identities"] = len(pinned.MSM_NUMBERS)
     return core.finish(
         "C09", tier, seed, LEVEL, st, RULE, t0,
